@@ -8,10 +8,20 @@
 -/
 namespace GV.Model.Collateral
 
-/-- A resolved collateral input: lovelace and the quantity of one fixed token. -/
-structure CIn where
-  coin : Nat
-  tok  : Nat
+/-- A token bundle: (asset id, quantity) pairs; an asset id stands for a
+    (policy, asset name) pair, distinct ids within one bundle. -/
+abbrev Bundle := List (Nat × Nat)
+
+/-- quantity of asset `a` in a bundle (absent = 0; a zero entry = absent, as
+    `MultiAsset.normalize` drops zero quantities) -/
+def qty (b : Bundle) (a : Nat) : Nat := ((b.filter (fun p => p.1 == a)).map (·.2)).sum
+
+/-- A resolved collateral input / the collateral return: lovelace and the
+    output's asset bundle (`none` = the output has no multi-asset part at all,
+    `Assets() == nil`). -/
+structure COut where
+  coin   : Nat
+  assets : Option Bundle
 deriving Repr, DecidableEq
 
 structure Tx where
@@ -21,13 +31,20 @@ structure Tx where
   fee  : Nat
   pct  : Nat
   maxInputs : Nat
-  ins  : List CIn
+  ins  : List COut
   /-- collateral return output (Babbage+) -/
-  ret  : Option CIn
+  ret  : Option COut
 deriving Repr
 
-def sumCoin (l : List CIn) : Nat := (l.map (·.coin)).sum
-def sumTok  (l : List CIn) : Nat := (l.map (·.tok)).sum
+def sumCoin (l : List COut) : Nat := (l.map (·.coin)).sum
+
+def bundleOf (o : COut) : Bundle := o.assets.getD []
+
+/-- total quantity of asset `a` over the collateral inputs (`totalAssets.Add` in the Go loop) -/
+def sumQty (l : List COut) (a : Nat) : Nat := (l.map (fun o => qty (bundleOf o) a)).sum
+
+/-- asset ids mentioned anywhere -/
+def idsOf (l : List COut) : List Nat := l.flatMap (fun o => (bundleOf o).map (·.1))
 
 /-- The ledger's collateral balance: inputs minus the collateral return. -/
 def balanceCoin (t : Tx) : Int :=
@@ -38,14 +55,26 @@ def insufficientOk (t : Tx) : Bool :=
   if !t.redeemers then true
   else decide (balanceCoin t * 100 ≥ (t.fee : Int) * (t.pct : Int))
 
-/-- `UtxoValidateCollateralContainsNonAda`. Alonzo: any input carrying an asset
-    bundle fails. Babbage+: fails unless the summed tokens equal the return's. -/
+/-- Babbage+: an input is a "bad output" when its bundle has at least one policy
+    (entries count even when their quantity is zero: `len(Policies()) > 0`).
+    Alonzo: when it has a multi-asset part at all (`Assets() != nil`). -/
+def isBad (babbagePlus : Bool) (o : COut) : Bool :=
+  match o.assets with
+  | none => false
+  | some b => if babbagePlus then !b.isEmpty else true
+
+/-- `MultiAsset.Compare` of the summed input assets with the return's assets:
+    equal quantities for every asset id, zero = absent. -/
+def returnsAll (t : Tx) (r : COut) : Bool :=
+  (idsOf t.ins ++ (bundleOf r).map (·.1)).all (fun a => sumQty t.ins a == qty (bundleOf r) a)
+
+/-- `UtxoValidateCollateralContainsNonAda`. -/
 def nonAdaOk (t : Tx) : Bool :=
   if !t.redeemers then true
-  else if t.ins.all (fun i => i.tok == 0) then true
+  else if !(t.ins.any (isBad t.hasReturnField)) then true
   else if !t.hasReturnField then false
   else match t.ret with
-    | some r => sumTok t.ins == r.tok
+    | some r => returnsAll t r
     | none => false
 
 def noCollateralOk (t : Tx) : Bool :=
@@ -55,14 +84,20 @@ def noCollateralOk (t : Tx) : Bool :=
     since the `fix:` commit that added it to Alonzo). -/
 def tooManyOk (t : Tx) : Bool := decide (t.ins.length ≤ t.maxInputs)
 
+def accepted (t : Tx) : Bool :=
+  insufficientOk t && nonAdaOk t && noCollateralOk t && tooManyOk t
+
+/-- "the non-ada part is returned": every asset the collateral inputs carry a
+    non-zero total of comes back in the collateral return with that quantity. -/
+def nonAdaReturned (t : Tx) : Bool :=
+  (idsOf t.ins).all (fun a => sumQty t.ins a == 0 ||
+    (match t.ret with | some r => qty (bundleOf r) a == sumQty t.ins a | none => false))
+
 /-- What the property demands of a script-running transaction (the ledger rule). -/
 def demanded (t : Tx) : Bool :=
   decide (1 ≤ t.ins.length) &&
   decide (balanceCoin t * 100 ≥ (t.fee : Int) * (t.pct : Int)) &&
-  (sumTok t.ins == 0 || (match t.ret with | some r => r.tok == sumTok t.ins | none => false)) &&
+  nonAdaReturned t &&
   decide (t.ins.length ≤ t.maxInputs)
-
-def accepted (t : Tx) : Bool :=
-  insufficientOk t && nonAdaOk t && noCollateralOk t && tooManyOk t
 
 end GV.Model.Collateral
